@@ -18,6 +18,7 @@ def make_market(rng, syms, d0, ndays, late=None, gaps=0.0, missing=0.0):
         p = rng.uniform(5, 200)
         rows = []
         off = (late or {}).get(s, 0)
+        blank_before = rng.random() < 0.5          # pre-listing rows present but empty, instead of absent
         for i in range(ndays):
             d = d0 + dtm.timedelta(days=i)
             if d.weekday() > 4:
@@ -26,6 +27,8 @@ def make_market(rng, syms, d0, ndays, late=None, gaps=0.0, missing=0.0):
             c = o * math.exp(rng.gauss(0, 0.02))
             p = c
             if i < off:
+                if blank_before:
+                    rows.append([d.isoformat(), None, None, None])
                 continue
             if rng.random() < gaps:
                 continue
@@ -110,6 +113,10 @@ def gen_case(rng, family='any'):
         if rng.random() < 0.4:
             dates = [[a, (start - 86400 if rng.random() < 0.4 else (day_of(d0) + rng.randrange(0, max(1, nd))) * 86400 + rng.choice([CLOSE, CLOSE, OPEN + 60, 40000]))] for a in assets]
             uni = {'dynamic': dates}
+    if rng.random() < 0.2:
+        # one asset whose data start a few days into the range (its file may carry empty rows before the listing)
+        late = dict(late or {})
+        late[rng.choice(syms)] = 10 + rng.randrange(2, max(3, min(nd, 12)))
     market = make_market(rng, syms, d0 - dtm.timedelta(days=10), nd + 25, late=late, gaps=gaps, missing=missing)
     burn = None
     k = rng.random()
